@@ -97,6 +97,14 @@ impl<'a> Gen<'a> {
                             }
                         }
                     }
+                    if let Some(p) = gs.renamed_to.clone() {
+                        if self.rng.chance(1, 3) {
+                            let op = FsOp::RemoveFile { path: p, front: self.front() };
+                            if guard_violation(m, gs, &op).is_none() {
+                                return op;
+                            }
+                        }
+                    }
                     if let Some(from) = gs.renamed_to.clone() {
                         let to = self.creatable(m);
                         let op = FsOp::Rename { from, to, front: self.front() };
